@@ -168,7 +168,11 @@ func goTypeAlt(n *Node) reflect.Type {
 		fs := []reflect.StructField{{Name: "ExtraZ", Type: reflect.TypeOf(0)}}
 		for i := len(n.Kids) - 1; i >= 0; i-- {
 			k := n.Kids[i]
-			fs = append(fs, reflect.StructField{Name: fieldName(k.Key), Type: goTypeAlt(k.Node), Tag: reflect.StructTag(tagString(k.Tags))})
+			tg := k.Tags
+			if tg.Zog != "" {
+				tg.Zog += "_alt" // another type may name its fields differently: nothing of that may stick to the schema
+			}
+			fs = append(fs, reflect.StructField{Name: fieldName(k.Key), Type: goTypeAlt(k.Node), Tag: reflect.StructTag(tagString(tg))})
 		}
 		return reflect.StructOf(fs)
 	}
